@@ -32,7 +32,11 @@ ASSUMPTIONS = [
     "is listed as a known finding for that reason); inputs are kept small enough that the dev-profile parser answers in seconds",
     "'the same text always gives the same outcome' is observed by parsing twice in one process (HashMap seeds differ between the two runs) "
     "and comparing the Debug text of the tree / the error report; 'reads no files and no interpreter state' rests on the signature "
-    "parser::parse(&str) and on the harness constructing no interpreter in this mode — it is not observed by tracing system calls",
+    "parser::parse(&str), on the harness constructing no interpreter in this mode, and on the observation that the two parses add no "
+    "read-type system call to /proc/self/io's syscr counter (flag ioread otherwise) — opens / mmaps are not traced",
+    "the guarded hook (proposed/C09-hook.diff, add-only) is NOT part of /repo: the shared harness prints `(hook off)` and the judge's replay "
+    "of the hook log (progress invariants of the three loops, cursor ranges of the recovery functions) is vacuous in ./check; it was run "
+    "once against a private hook-enabled build (19 895 records on the quick tier, all conforming)",
     "columns are counted by mech in display widths (control characters have width 0); 'lies within the input' is judged against the "
     "per-line widths of the newline-terminated text: start column <= width+1 (the line terminator), exclusive end column <= width+2; "
     "the judge recomputes the number of lines and, for printable-ASCII lines, the exact widths from the text bytes, and bounds the "
@@ -51,7 +55,7 @@ KEYWORDS = ["true", "false", "if", "else", "fn", "let", "mut", "where", "for", "
             "mech:", "✓", "✗", "_", "*", "--", "---", "===", "====="]
 DIGITS = ["0", "1", "7", "42", "3.14", "1e3", "0x1F", "0b101", "0o17", "1/2", "2i", "1+2i", "5u8", "7<i8>", "1_000", "1.", ".5", "0x", "1e", "9999999999999999999999"]
 IDENTS = ["x", "y", "foo", "a1", "x/2", "math/sin", "stats/sum", "Δ", "λx", "α_β", "é", "n\u0303", "名前", "🚀", "x🚀"]
-QUOTES = ['"', '"abc"', '"a\\"b"', "'", "`", "``", "```", "```mech", "```mech:disabled", "```python", "~~~", '"\n', "“", "”", "‘"]
+QUOTES = ["$$", "$$", "$", '"', '"abc"', '"a\\"b"', "'", "`", "``", "```", "```mech", "```mech:disabled", "```python", "~~~", '"\n', "“", "”", "‘"]
 HASHES = ["#", "##", "#x", "#Counter", "# Title", "--", "-- c", "// c", "%%", "%% sec", "(?)>", "(i)>", "(!)>", "(✓)>", "(✗)>", "(*)>", "[^1]:", "[^", "![", "](", ">", "> q", "* ", "- [ ]", "1. ", "|-", "|:-:|", "$$", "{{", "}}", "<<", ">>"]
 NEWLINES = ["\n", "\n", "\n", "\r\n", "\r", "\n\n", " ", " ", " ", "  ", "\t", "\u00a0", "\u2009"]
 BOX = ["├", "└", "│", "─", "╭", "╮", "╰", "╯", "┌", "┐", "┘", "┼", "═", "║", "╔", "╗", "╚", "╝", "├ ", "└ ", "│ "]
@@ -385,6 +389,9 @@ def generate(tier, rng):
     if not quick:
         add(emit("x := " + "[" * 12 + "1" + "]" * 12, stream="nest", depth=12))
         add(emit("f(g(h(i(j(k(l(m(n(o(p(1)))))))))))", stream="nest", depth=11))
+    # inline equations: "$$…$$"; the empty one panics (finding empty-inline-equation)
+    for t in ["$$x$$", "a $$ x^2 $$ b", "$$", "$$$", "$$$$", "a $$$$ b", "$$ $$", "$$x$$$$", "$$\n$$", "$$x", "x := 1 -- $$$$"]:
+        add(emit(t, stream="equation"))
     add(emit("⸥", stream="mika-close"))
     add(emit("x := 1\n⸥\n", stream="mika-close"))
     add(emit('x := "⸥"', stream="mika-close"))
